@@ -116,10 +116,10 @@ class Ctx:
     def has_violation(self, mechanism: str) -> bool:
         return mechanism in self.violations
 
-    def should_shrink(self, mechanism: str) -> bool:
+    def should_shrink(self, mechanism: str, times: int = 3) -> bool:
         """Shrinking is expensive: only the first few witnesses per mechanism are minimised."""
         rec = self.violations.get(mechanism)
-        return rec is None or rec["count"] < 3
+        return rec is None or rec["count"] < times
 
     # ---- sharding -------------------------------------------------------
     def dump_state(self) -> dict:
@@ -303,7 +303,7 @@ def load_known() -> list[dict]:
         return []
 
 
-def ddmin(items: list, fails) -> list:
+def ddmin(items: list, fails, max_probes: int = 400) -> list:
     """
     Delta debugging: smallest sub-list (order kept) for which fails(sub) is
     true.  `fails` must be deterministic.  Bounded number of probes.
@@ -311,7 +311,7 @@ def ddmin(items: list, fails) -> list:
     probes = 0
     n = 2
     cur = list(items)
-    while len(cur) >= 2 and probes < 400:
+    while len(cur) >= 2 and probes < max_probes:
         chunk = max(1, len(cur) // n)
         subsets = [cur[i : i + chunk] for i in range(0, len(cur), chunk)]
         reduced = False
